@@ -181,12 +181,20 @@ def representable (f : Fmt) (m : Nat) (e : Int) : Bool :=
 def intTypes : List NT := [.boolean, .sbyte, .byte, .int16, .uint16, .int32, .uint32, .int64, .uint64]
 
 /-- boundary candidates for an integer source type -/
-def intCands (s : NT) : List Int :=
+def intCands (s d : NT) : List Int :=
   let bounds := intTypes.flatMap fun t => [t.minV - 1, t.minV, t.minV + 1, t.maxV - 1, t.maxV, t.maxV + 1]
   let rounding := [24, 53].flatMap fun (p : Nat) =>
     let b : Int := 2 ^ p
     [b - 1, b, b + 1, b + 2, b + 3, 2 * b + 1, 2 * b + 2, 2 * b + 3, 2 * b + 6, 4 * b + 4, 4 * b + 12]
-  let all := [-3, -2, -1, 0, 1, 2, 3] ++ bounds ++ rounding ++ rounding.map (fun x => -x)
+  -- midpoints ± 1 for every bit length (double-rounding-sensitive values)
+  let mids : List Int := (if d.isFloat then [(24, 64), (53, 64)] else []).flatMap fun ((p, lmax) : Nat × Nat) =>
+    (List.range (lmax + 1)).flatMap fun l =>
+      if l < p + 2 then [] else
+        let top : Int := 2 ^ (l - 1)
+        let half : Int := 2 ^ (l - p - 1)
+        let ulp : Int := 2 * half
+        [top + half + 1, top + half - 1, top + ulp + half - 1, top + ulp + half + 1, top + half, top + ulp + half]
+  let all := [-3, -2, -1, 0, 1, 2, 3] ++ bounds ++ rounding ++ rounding.map (fun x => -x) ++ mids ++ mids.map (fun x => -x)
   (all.filter fun x => decide (inRange s x)).eraseDups
 
 /-- boundary candidates for a float source type (exact values) -/
@@ -210,7 +218,7 @@ def fltCands (f : Fmt) (d : NT) : List Fl :=
 def candsOf (s d : NT) : List Val :=
   if s = .float then (fltCands fmt32 d).map .flt
   else if s = .double then (fltCands fmt64 d).map .flt
-  else (intCands s).map .int
+  else (intCands s d).map .int
 
 /-- every arm tag that the boundary candidates of every type pair reach (the declared arms) -/
 def allArms : List String :=
